@@ -8,7 +8,7 @@ P-PATHS bounded enumeration of acyclic paths (await loops collapsed)
 import re
 from functools import lru_cache
 
-GEN = re.compile(r"::<[^<>]*(?:<[^<>]*(?:<[^<>]*(?:<[^<>]*>[^<>]*)*>[^<>]*)*>[^<>]*)*>")
+GEN = re.compile(r"::<(?!impl )[^<>]*(?:<[^<>]*(?:<[^<>]*(?:<[^<>]*>[^<>]*)*>[^<>]*)*>[^<>]*)*>")
 
 
 def strip_generics(path):
@@ -585,6 +585,13 @@ class Body:
         pl = x["pl"] if "pl" in x else x
         proj = [p for p in pl["p"] if p != "deref"]
         ds = self.whole_defs(pl["l"])
+        if len(ds) == 1 and ds[0][0] == "call" and not proj:
+            t = ds[0][2]
+            nm = callee_name(t) or ""
+            if re.search(r"mem::size_of$", nm):
+                a = (t["callee"].get("args") or [None])[0]
+                return SIZES.get(a)
+            return None
         if len(ds) != 1 or ds[0][0] != "stmt":
             return None
         rv = ds[0][3]["rv"]
@@ -617,7 +624,8 @@ class Body:
         try:
             return {"Add": a + b, "Sub": a - b, "Mul": a * b, "Shl": a << b, "Shr": a >> b,
                     "BitOr": a | b, "BitAnd": a & b, "BitXor": a ^ b,
-                    "Div": a // b if b else None, "Rem": a % b if b else None}.get(op)
+                    "Div": a // b if b else None, "Rem": a % b if b else None,
+                    "Lt": int(a < b), "Le": int(a <= b), "Gt": int(a > b), "Ge": int(a >= b), "Eq": int(a == b), "Ne": int(a != b)}.get(op)
         except Exception:
             return None
 
@@ -700,6 +708,8 @@ class Body:
     def site(self, bb):
         return "%s:%s" % (self.fn["file"], self.line_of(bb))
 
+
+SIZES = {"u8": 1, "i8": 1, "bool": 1, "u16": 2, "i16": 2, "u32": 4, "i32": 4, "u64": 8, "i64": 8, "usize": 8, "isize": 8}
 
 KNOWN_ENUMS = {
     "std::option::Option": {0: "None", 1: "Some"},
